@@ -204,3 +204,22 @@ void bad_inv_guard__other_flag__st_map_sswu(ep_t p, const fp_t t) {
 	}
 	fp_copy(p->x, t2);
 }
+
+/* PAR-ABS: 1 - x computed from |x|: right for BLS12-381 (x < 0) only */
+void bad_par_abs__abs__ep9_mul_cof(ep_t r, const ep_t p) {
+	bn_t k;
+	fp_prime_get_par(k);
+	switch (ep_curve_is_pairf()) {
+		case EP_BN:
+			ep_copy(r, p);
+			break;
+		case EP_B12:
+			bn_abs(k, k);
+			bn_add_dig(k, k, 1);
+			ep_mul_basic(r, p, k);
+			break;
+		default:
+			ep_curve_get_cof(k);
+			ep_mul_big(r, p, k);
+	}
+}
